@@ -19,7 +19,7 @@ EXPLANATION = (
     'the run\'s result; (R5) no result of a mutating step is discarded; (R6) every hole of every remote shell template sits inside $\'..\' and is fed by the '
     'escaper in the right order (backslash, then quote) or is integer typed, and lists written to a remote xargs are NUL-delimited; (R7) direction dispatch: '
     '(Local,Remote) -> push with the local path as source, (Remote,Local) -> pull, (Local,Local) -> run_local(from,to), (Remote,Remote) -> error; FileLocation::parse '
-    'yields Remote only for a >1-char, separator-free prefix before the first colon; (R8) the remote listing is returned only under the success edge of the listing command\'s exit status (a partial listing is never taken for the tree). (R10) the membership conditions of build_plan and the exclusion predicate they use (= C19.R1, R3: is_excluded dispatch, glob_match metacharacters and step function): transfer = not excluded and needs_transfer, delete = with_delete and absent from the source and not excluded, whole-map walks; (R9) the mtime a delivery stamps is a pure copy of the source metadata mtime of the same plan entry (the C14.R2 rule; a mapping function item is judged like a mapping closure). Not decided: the end state of the trees; independence from task completion order.')
+    'yields Remote only for a >1-char, separator-free prefix before the first colon; (R8) the remote listing is returned only under the success edge of the listing command\'s exit status (a partial listing is never taken for the tree). (R10) the membership conditions of build_plan and the exclusion predicate they use (= C19.R1, R3: is_excluded dispatch, glob_match metacharacters and step function): transfer = not excluded and needs_transfer, delete = with_delete and absent from the source and not excluded, whole-map walks; (R9) the mtime a delivery stamps is a pure copy of the source metadata mtime of the same plan entry (the C14.R2 rule; a mapping function item is judged like a mapping closure). R1 also: a local delivery that fills the staging file with chunk-wise writes of its own instead of fs::copy / io::copy is not decided. Not decided: the end state of the trees; independence from task completion order.')
 ASSUMPTIONS = ['POSIX sh quoting of $\'..\' with \\\\ and \\\' escapes; xargs -0 splits on NUL only']
 
 REMOVERS = ('std::fs::remove_file', 'tokio::fs::remove_file')
